@@ -1,7 +1,7 @@
 (* C01 — correspondence driver *)
 From Coq Require Import ZArith NArith Bool List.
 Import ListNotations.
-Require Import FV.Base.Util FV.Base.F64 FV.Base.PyVal FV.C01.Model FV.C01.IdemDefs.
+Require Import FV.Base.Util FV.Base.F64 FV.Base.PyVal FV.C01.Model FV.C01.IdemDefs FV.C01.FlavourDefs.
 
 Inductive op := OpCall | OpValidate | OpImport | OpWire.
 
@@ -9,7 +9,7 @@ Record case := {
   c_env : pyenv;
   c_d : dtype;
   c_op : op;
-  c_v : pyval;
+  c_v : cval;                      (* the candidate, every mapping with its flavour (dict / ImmutableDict): FlavourDefs.v *)
   c_prev : pyval;
   c_obs : res pyval;               (* what the implementation returned / raised *)
   c_obs2 : option (res pyval);     (* validate(result) once more, when the first call succeeded (validate / wire) *)
@@ -17,16 +17,16 @@ Record case := {
 
 Definition model_result (c : case) : res pyval :=
   match c_op c with
-  | OpCall => dt_call (c_d c) (c_v c)
-  | OpValidate => dt_validate (c_d c) (c_v c) (c_prev c)
-  | OpImport => dt_import (c_env c) (c_d c) (c_v c)
-  | OpWire => wire (c_env c) (c_d c) (c_v c) (c_prev c)
+  | OpCall => cv_call (c_d c) (c_v c)
+  | OpValidate => cv_validate (c_d c) (c_v c) (c_prev c)
+  | OpImport => dt_import (c_env c) (c_d c) (erase (c_v c))
+  | OpWire => wire (c_env c) (c_d c) (erase (c_v c)) (c_prev c)
   end.
 
 Definition case_in_domain (c : case) : bool :=
-  in_domain (c_d c) (c_v c) &&
+  in_domain (c_d c) (erase (c_v c)) &&
   match c_op c with
-  | OpWire => match dt_import (c_env c) (c_d c) (c_v c) with Ok v' => in_domain (c_d c) v' | Err _ => true end
+  | OpWire => match dt_import (c_env c) (c_d c) (erase (c_v c)) with Ok v' => in_domain (c_d c) v' | Err _ => true end
   | _ => true
   end.
 
